@@ -14,11 +14,13 @@ the RFC normalized path, for every location over every Unicode scalar value;
 uniqueness of normalized paths (an inverse `Spec.readNormalized`).
 Object *identity* ("the very object") is a fact about Python references; the
 harness checks `is` on the real objects.  The re-query clause is
-`C08_requery` (stage-2 parser round trip) — see the evidence for its status.
+`C08_path_compiles` + `C08_requery`: the implementation's own lexer and parser
+accept `path()` of any location and the resulting query returns exactly that node.
 -/
 import JPV.Impl.Serialize
 import JPV.Spec.NormalizedPath
 import JPV.Proofs.Paths
+import JPV.Proofs.Requery
 namespace JPV.Props
 open JPV
 
@@ -47,6 +49,18 @@ theorem C08_path_normal (loc : Loc) (h : ∀ k ∈ loc, ∀ i, k = .idx i → 0 
 /-- normalized paths are unique: the location can be read back -/
 theorem C08_unique (l1 l2 : Loc) (h1 : ∀ k ∈ l1, ∀ i, k = .idx i → 0 ≤ i) (h2 : ∀ k ∈ l2, ∀ i, k = .idx i → 0 ≤ i)
     (h : Spec.normalizedPath l1 = Spec.normalizedPath l2) : l1 = l2 := Proofs.normalizedPath_injective l1 l2 h1 h2 h
+
+/-- Re-query, through the implementation's OWN lexer and parser: the normalized path of any location
+(member names over every Unicode scalar value, non-negative indices within the environment's range)
+compiles, and compiles to the singular query that walks that location … -/
+theorem C08_path_compiles (env : Impl.Env) (loc : Loc)
+    (h : ∀ k ∈ loc, ∀ i, k = .idx i → 0 ≤ i ∧ env.minIdx ≤ i ∧ i ≤ env.maxIdx) :
+    Impl.compile env (Impl.path loc) = .ok (Proofs.queryOfLoc loc) := Proofs.path_compiles env loc h
+
+/-- … and evaluating it on a value in which the location exists returns exactly that one node. -/
+theorem C08_requery (env : Impl.Env) (v val : Json) (loc : Loc) (hwf : v.WF)
+    (hg : Json.getAt v loc = some val) (h : ∀ k ∈ loc, ∀ i, k = .idx i → 0 ≤ i) :
+    Impl.find env (Proofs.queryOfLoc loc) v = .ok [⟨loc, val⟩] := Proofs.requery env v val loc hwf hg h
 
 example : Impl.path [.name "a'\\\n\u0000é😀\"".toList, .idx 3] = "$['a\\'\\\\\\n\\u0000é😀\"'][3]".toList := by
   decide +kernel
